@@ -5,8 +5,8 @@ ROOT = os.path.abspath(os.path.join(os.path.dirname(__file__), '..'))
 TB = 'Trusted: Lean 4.33.0 kernel (axioms printed per theorem, at most propext/Quot.sound/Classical.choice), translator/amc2lean.py + clang 14 AST, hand-written Prim/ semantics, the C++ harness and its oracles.'
 TECH = 'machine-checked proof in Lean 4 (theorems over a model tied to /repo by a clang-AST->Lean translator and by a differential correspondence check)'
 P = {
- 'C01': ('proof', 'Lean theorems (Props/C01.lean) over the generated size/capacity word functions (size bookkeeping of every operation shape tracks std::vector through every history; move/swap) and (Props/C01b.lean) over the slot-level model: each of 23 public operation kinds, from any state representing a list xs that satisfies the std::vector precondition, ends representing exactly the std::vector result (or throws), for every flavour and size type; histories of them end in a list the std::vector semantics allows; begin()..end() shows exactly the represented list + three-way correspondence impl / slot-level Lean model / std::vector on random histories incl. aliasing arguments and single-pass ranges',
-         'The slot-level model of the public operations is hand-written (tied by correspondence); the size/capacity/pointer members it calls and the law packages (VecLaws) are regenerated and re-proved from the source on every run. Move/swap between containers, shrink_to_fit, single-pass ranges and multi-element insertion exceptions: word-level theorems + correspondence. 64-bit size_type: word-level step theorems under capacity < 2^62. ' + TB),
+ 'C01': ('proof', 'Lean theorems (Props/C01.lean) over the generated size/capacity word functions (size bookkeeping of every operation shape tracks std::vector through every history; move/swap) and (Props/C01b.lean) over the slot-level model: each of 23 public operation kinds, from any state representing a list xs that satisfies the std::vector precondition, ends representing exactly the std::vector result (or throws), for every flavour and size type; histories of them end in a list the std::vector semantics allows; begin()..end() shows exactly the represented list; pools of SmallVectors (Props/C01c.lean): histories mixing all of these with copy/move assignment, swap, move/copy construction and shrink_to_fit between the containers of a pool end in the lists std::vector semantics allows, no container disturbed by an operation on another one; the model of every public operation and element helper is REGENERATED from vectorcommon.hpp on every run (translator/glue2lean.py, helpers2lean.py) and proved equal to the hand-written one (Bridge/VecGlueBridge.lean, VecHelpersBridge.lean) + three-way correspondence impl / slot-level Lean model / std::vector on random histories incl. aliasing arguments and single-pass ranges',
+         'Hand-written and tied by correspondence only: the slot-level primitives (object lifetime, memmove, allocator, exceptions as a fuel counter), swap2 between different types, single-pass ranges, pools of amc::vector / FixedCapacityVector; multi-element insertion in the middle under exceptions is known finding V9. 64-bit size_type: word-level step theorems under capacity < 2^62. ' + TB),
  'C03': ('proof', 'Lean theorems on the FlatSet list model for every strict weak order (sortedness invariant of every mutator, insert inserts iff no equivalent element, lookups by equivalence, bulk = one-by-one insertion, hinted = plain insertion, binary search = specification lower bound), transferred (Props/C03b.lean) to insert / emplace / find / erase(key) / lower_bound as REGENERATED from flatset.hpp on every run by translator/flatset2lean.py and proved equal to the model in Bridge/FlatSetBridge.lean (incl. never dereferencing outside [begin,end)) + correspondence impl / model / std::set over 4 comparators x 4 underlying vectors',
          'Generated from the source: the loop-free decision logic (insert, insert(hint), emplace(_hint), find, contains, count, equal_range, lower/upper_bound, erase(key)). Hand-written and tied by correspondence only: std::lower_bound itself (libstdc++ loop), bulk paths (sort/inplace_merge/unique at specification level), merge, node handles, constructors; heterogeneous lookups and cross-comparator merge not exercised yet. ' + TB),
  'C04': ('proof', 'Lean theorems on the SmallSet {inline vector, backing set} model for every strict weak order (state invariant kept by insert/erase/grow, insert and find answer by membership up to equivalence in either state and across grow) + correspondence impl / model / std::set with grow-drain-refill histories, both backing sets',
